@@ -63,6 +63,32 @@ fn oracle_changed(env: &Env, from: &[MTree], to: &[MTree]) -> (BTreeSet<Vec<u64>
 
 struct Written { hist: Hist, real: Vec<Commit> }
 
+/// base; two children editing different slots of the same files; a merge commit carrying the automatic
+/// merge (so that only file-level resolution of the parents' side makes those paths "unchanged"),
+/// sometimes with one more edit or with one side's version instead
+fn gen_diamond(r: &mut Rng) -> Hist {
+    let pal = Palette::new(r);
+    let mut t0 = pal.tree(r, pal.max_depth);
+    if t0.is_empty() { t0 = vec![(0, V::F(0, false))]; }
+    let mut files = BTreeSet::new();
+    all_paths(&t0, &mut vec![], &mut files);
+    let files: Vec<Vec<u64>> = files.into_iter().filter(|p| matches!(get(&t0, p), Some(V::F(..)))).collect();
+    let (mut t1, mut t2, mut tm) = (t0.clone(), t0.clone(), t0.clone());
+    for p in files.iter() {
+        if !r.chance(2, 3) { continue; }
+        if let Some(V::F(id, x)) = get(&t0, p) {
+            let (a, b) = (id / 3, id % 3);
+            let (a2, b2) = ((a + 1 + r.below(2) as u64) % 3, (b + 1 + r.below(2) as u64) % 3);
+            set(&mut t1, p, Some(V::F(3 * a2 + b, x)));
+            set(&mut t2, p, Some(V::F(3 * a + b2, x)));
+            set(&mut tm, p, Some(V::F(3 * a2 + b2, x)));
+        }
+    }
+    match r.below(4) { 0 => { tm = pal.mutate(r, &tm); } 1 => { tm = t1.clone(); } _ => {} }
+    if r.chance(1, 3) { t2 = pal.mutate(r, &t2); }
+    Hist { commits: vec![(vec![], vec![vec![]]), (vec![0], vec![t0]), (vec![1], vec![t1]), (vec![1], vec![t2]), (vec![2, 3], vec![tm])] }
+}
+
 fn write_hist(env: &mut Env, tx: &mut jj_lib::transaction::Transaction, h: &Hist, tag: &str, from: usize, real: &mut Vec<Commit>) {
     for (i, (ps, ts)) in h.commits.iter().enumerate().skip(from) {
         let tree = env.conv.merged(ts);
@@ -136,7 +162,7 @@ fn batch(accept: bool, out: &mut Out, r: &mut Rng, batch_no: u64, size: usize) {
     let mut tx_b = repo_b.start_transaction();
     let mut k = 0;
     while k < size {
-        let hs: Vec<Hist> = (k..(k + group).min(size)).map(|j| gen_case(&mut env_a, r, j % 2 == 1).0).collect();
+        let hs: Vec<Hist> = (k..(k + group).min(size)).map(|j| if j % 4 == 3 { gen_diamond(r) } else { gen_case(&mut env_a, r, j % 2 == 1).0 }).collect();
         let concurrent = r.chance(1, 3);
         let base = repo_a.clone();
         let mut tx1 = base.start_transaction();
@@ -229,5 +255,5 @@ pub fn run(cfg: &Cfg, out: &mut Out) {
     for b in 0..batches {
         batch(b % 3 != 2, out, &mut r, b, 40);
     }
-    out.note("batches of 40 random histories (as C08: linear / merges / criss-cross / redundant parents, 1 in 6 commit trees conflicted) written into two fresh repos: one with the changed-path index enabled beforehand (1 in 3 histories through concurrent operations merged on reload), one indexed afterwards with max_commits ∈ {3, 17, all}; both same-change settings".to_string());
+    out.note("batches of 40 histories (1 in 4 a diamond whose merge commit carries the automatic content merge of its parents; the others random as in C08: linear / merges / criss-cross / redundant parents, 1 in 6 commit trees conflicted) written into two fresh repos: one with the changed-path index enabled beforehand (1 in 3 histories through concurrent operations merged on reload), one indexed afterwards with max_commits ∈ {3, 17, all}; both same-change settings".to_string());
 }
